@@ -1,6 +1,7 @@
 package main
 
 import (
+	"regexp"
 	"fmt"
 	"strings"
 
@@ -93,6 +94,21 @@ func runEntry(entry string, b []byte) (res string) {
 			return describeErr(err)
 		}
 		return describeErr(root.Check())
+	case "SP0", "SP1", "SP2", "SP3", "SP4", "SP5", "SP6":
+		// the text is a user type referred to from one of the other reference positions; an error positioned in the root's
+		// own text (not the subject here: entry S) is reported without its position
+		roots := []string{"1 // {type: \"@a\"}", "1 // {or: [\"@a\", \"string\"]}", "{\n  @a: 1\n}", "[\n  @a\n]",
+			"{ // {additionalProperties: \"@a\"}\n}", "{ // {allOf: \"@a\"}\n}", "\"x\" // {or: [{type: \"@a\"}, {type: \"integer\"}]}"}
+		root := jschema.New("schema", roots[int(entry[2]-'0')])
+		if err := root.AddType("@a", jschema.New("@a", c)); err != nil {
+			return describeErr(err)
+		}
+		err := root.Check()
+		res := describeErr(err)
+		if je, ok := err.(kit.JSchemaError); ok && je.File() != nil && je.File().Name() == "schema" {
+			res = regexp.MustCompile(`idx=-?\d+ line=\d+ col=\d+`).ReplaceAllString(res, "idx=-1 line=0 col=0")
+		}
+		return res
 	case "SI":
 		// the text is a type that another registered type inherits from (allOf): what Check() reports about an inherited
 		// member refers to the text the member was written in
